@@ -66,6 +66,7 @@ def put (idx pos ds : List Nat) : List Nat :=
 structure T (α : Type) where
   shape : List Nat
   data : Array α
+deriving DecidableEq
 
 variable {α : Type}
 
@@ -131,10 +132,19 @@ def matmul (a b : T α) : Except Err (T α) :=
 
 end
 
+/-- Stable insertion into a list sorted by first component. -/
+def insertByKey (x : Nat × Nat) : List (Nat × Nat) → List (Nat × Nat)
+  | [] => [x]
+  | y :: ys => if x.1 ≤ y.1 then x :: y :: ys else y :: insertByKey x ys
+
+/-- Stable insertion sort by first component (structural, so that it reduces in `decide`). -/
+def sortByKey : List (Nat × Nat) → List (Nat × Nat)
+  | [] => []
+  | x :: xs => insertByKey x (sortByKey xs)
+
 /-- `np.argsort(l)` (stable; for a permutation this is its inverse, see
-`C06_argsort_inverts`). -/
-def argsort (l : List Nat) : List Nat :=
-  (l.zipIdx.mergeSort (fun a b => decide (a.1 ≤ b.1))).map (·.2)
+`argsort_eq_of_isPerm`). -/
+def argsort (l : List Nat) : List Nat := (sortByKey l.zipIdx).map (·.2)
 
 /-! ### matrices -/
 
